@@ -266,10 +266,13 @@ Next ==
            cands == {x \in outs : ResMatches(x.res, e.res)}
            good == {x \in cands : ExpFails(x.st, o) = {} /\ FreshOK(x.st, e)}
        IN
-       IF unm THEN
+       IF unm /\ good = {} THEN
+          \* the specification leaves this call open and no specified outcome explains the
+          \* observation: the expectation clauses stop here (reported for the coverage account)
           /\ (IF sf \cup stutter = {} THEN TRUE ELSE PrintT(<<"REJECT", Traces[tid].id, l, sf \cup stutter, "first">>))
+          /\ PrintT(<<"UNM", Traces[tid].id, l, Len(Traces[tid].ev) - l>>)
           /\ ok' = FALSE /\ UNCHANGED st
-       ELSE IF rf # {} \/ cands = {} THEN
+       ELSE IF ~unm /\ (rf # {} \/ cands = {}) THEN
           /\ PrintT(<<"REJECT", Traces[tid].id, l, rf \cup sf \cup stutter, "first">>)
           /\ ok' = FALSE /\ UNCHANGED st
        ELSE IF good # {} THEN
